@@ -45,6 +45,29 @@ def _increment_backups(
             backup_path.rename(next_backup)
 
 
+def _restore_backups(base_path: pathlib.Path,
+                     max_backups=DEFAULT_MAX_BACKUPS):
+    """Undo _increment_backups after a failed write
+
+    Remove the partially written model at ``base_path`` and
+    shift the backups back by one generation.
+    """
+    try:
+        if base_path.is_dir():
+            shutil.rmtree(base_path)
+        elif base_path.exists():
+            base_path.unlink()
+
+        for nth in range(1, max_backups + 1):
+            backup_path = pathlib.Path(str(base_path) + "_BAK" + str(nth))
+            if not backup_path.exists():
+                break
+            postfix = "_BAK" + str(nth - 1) if nth > 1 else ""
+            backup_path.rename(pathlib.Path(str(base_path) + postfix))
+    except OSError:
+        pass    # Leave what could not be restored as it is
+
+
 def _get_model_metadata(model_path):
 
     try:
@@ -74,12 +97,19 @@ def write_model(system, model, model_path,
     _increment_backups(model, root, max_backups)
 
     serializer = _get_serializer(version)
-    serializer.ModelWriter(system, model, root,
-                           is_zip=is_zip,
-                           log_input=log_input,
-                           compression=compression,
-                           compresslevel=compresslevel
-                           ).write_model()
+    try:
+        serializer.ModelWriter(system, model, root,
+                               is_zip=is_zip,
+                               log_input=log_input,
+                               compression=compression,
+                               compresslevel=compresslevel
+                               ).write_model()
+    except BaseException:
+        # Do not leave a partial model to be rotated as a backup
+        # by the next write
+        if max_backups:
+            _restore_backups(root, max_backups)
+        raise
 
     if model.path != root:
         model.path = root
